@@ -71,3 +71,13 @@ package hash
 //@ func (Concurrent).Hash$2
 //@ props C04 C18
 //@ ensures true
+
+// the order handed to sort.Stable is the strict lexicographic order on whole items
+//@ func (sortByteSlices).Less
+//@ props C04
+//@ requires 0 <= i && i < len(b) && 0 <= j && j < len(b)
+//@ ensures [C04,less-is-lexicographic-on-whole-items] result == (cmpBytes(b[i], b[j]) == -1)
+
+//@ func (sortByteSlices).Len
+//@ props C04
+//@ ensures result == len(b)
